@@ -354,6 +354,33 @@ def make_machine(max_steps, collected, opts):
                 sink["tchunks"] = [data.draw(st.sampled_from([1, 2, 3, 5])) for _ in range(v.ndim)]
             self._apply({"op": "store", "id": i, "sink": sink, "eager": data.draw(st.booleans()), "executor": data.draw(st.sampled_from(EXECS[:3])), "seed": data.draw(st.integers(0, 999))}, data)
 
+        @precondition(lambda self: any(s["op"] == "store" for s in self.w.steps))
+        @rule(data=st.data())
+        def store_same_member_again(self, data):
+            # the member stored by the latest store step goes to a second target (while the first store may still be pending)
+            last = [s for s in self.w.steps if s["op"] == "store"][-1]
+            sink = {"cls": data.draw(st.sampled_from(["fresh", "fresh", "group", "existing-same"])), "api": data.draw(st.sampled_from(["store", "to_zarr"]))}
+            v = np.asarray(self.w.vals[last["id"] % len(self.w.pool)].v)
+            if v.ndim == 0 or v.size == 0:
+                sink["cls"] = "fresh"
+            self._apply({"op": "store", "id": last["id"], "sink": sink, "eager": data.draw(st.booleans()), "executor": data.draw(st.sampled_from(EXECS[:3])), "seed": data.draw(st.integers(0, 999))}, data)
+
+        @precondition(lambda self: len(self.w.pool) > 0)
+        @rule(data=st.data())
+        def store_lazily_twice_then_compute(self, data):
+            # one member goes to two targets, the first store still pending when the second is issued; then the pending ones run
+            nin = sum(1 for s in self.w.steps if s["op"] == "input")
+            derived = [k for k in range(len(self.w.pool)) if self.w.born[k] >= 0 and self.w.steps[self.w.born[k]]["op"] == "derive"]
+            i = data.draw(st.sampled_from(derived)) if derived and data.draw(st.integers(0, 4)) else data.draw(st.integers(0, len(self.w.pool) - 1))
+            v = np.asarray(self.w.vals[i].v)
+            for k in range(2):
+                cls = "fresh" if (v.ndim == 0 or v.size == 0) else data.draw(st.sampled_from(["fresh", "group", "existing-same"]))
+                self._apply({"op": "store", "id": i, "sink": {"cls": cls, "api": data.draw(st.sampled_from(["store", "to_zarr"]))}, "eager": (k == 1 and data.draw(st.booleans())),
+                             "executor": data.draw(st.sampled_from(EXECS[:3])), "seed": data.draw(st.integers(0, 999))}, data)
+            for k in range(2):
+                if self.w.lazy:
+                    self._apply({"op": "compute_lazy", "which": data.draw(st.integers(0, 9)), "executor": data.draw(st.sampled_from(EXECS[:3])), "seed": data.draw(st.integers(0, 999))}, data)
+
         @precondition(lambda self: len(self.w.lazy) > 0)
         @rule(data=st.data())
         def compute_lazy(self, data):
